@@ -76,7 +76,16 @@ func facts() map[string]any {
 		"nodata_soamin60_s":     int64((soamin + time.Second - 1) / time.Second),
 		"max_denial_proof_ns":   int64(cache.VerifC04MaxDenialProofTTL()),
 		"cut_max_ttl_expire600": int64(cache.VerifC04CutMaxTTL(c)),
+		"hist_cut_max_ns":       histCutMax(),
 	}
+}
+
+// histCutMax: the ceiling of the RFC 8020 cut index under the configuration
+// the history cases run with.
+func histCutMax() int64 {
+	c := cache.New(&config.Config{CacheSize: 1024, Expire: histExpire})
+	defer c.Stop()
+	return int64(cache.VerifC04CutMaxTTL(c))
 }
 
 func main() { vlib.Main(&vlib.Driver{Facts: facts, Exec: exec, Gen: gen}) }
